@@ -251,7 +251,55 @@ static void run_case(cs::Src& s, cs::Ctx& ctx) {
 
 // a deliberately racy "library" pattern is not part of the witness list: the witness below only
 // checks that the harness itself is quiet under the sanitizer
-static void witness(const std::string& name, cs::Ctx& ctx) { ctx.fail("witness", "unknown witness " + name); }
+// cold start: the very first documents of the process are created by concurrently running threads
+// (lazily initialised library state would be touched by all of them at once); the transcripts are
+// compared with sequential runs made afterwards
+static void witness(const std::string& name, cs::Ctx& ctx) {
+  if (name != "cold_start") ctx.fail("witness", "unknown witness " + name);
+  // the shared document must not touch the default allocator before the threads do; copies of it
+  // made by the threads inherit its allocator, which therefore has to be stateless
+  struct PlainAllocator : ArduinoJson::Allocator {
+    void* allocate(size_t n) override { return malloc(n); }
+    void deallocate(void* p) override { free(p); }
+    void* reallocate(void* p, size_t n) override { return realloc(p, n); }
+  };
+  static PlainAllocator plain;
+  JsonDocument shared_doc(&plain);
+  DeserializationError e = deserializeJson(
+      shared_doc, "{\"filter\":{\"a\":true,\"*\":[true]},\"data\":[3,-7,{\"a\":[1,2],\"b\":\"x\"}],\"num\":1.5,\"str\":\"shared text\",\"numstr\":\"12345.678\"}");
+  if (e) ctx.fail("witness", "shared document could not be built");
+  const JsonDocument& shared_const = shared_doc;
+  Shared shared{&shared_const};
+  const size_t nthreads = 8;
+  std::vector<uint64_t> seeds;
+  for (size_t t = 0; t < nthreads; t++) seeds.push_back(0x9E3779B97F4A7C15ull * (t + 1));
+  std::vector<std::string> got(nthreads), errors(nthreads);
+  std::atomic<int> ready{0};
+  std::atomic<bool> go{false};
+  std::vector<std::thread> threads;
+  std::vector<std::string> known = ctx.active_known;
+  for (size_t t = 0; t < nthreads; t++) {
+    threads.emplace_back([&, t]() {
+      ready.fetch_add(1);
+      while (!go.load()) std::this_thread::yield();
+      try {
+        got[t] = program(seeds[t], shared, known);
+      } catch (cs::Failure& f) {
+        errors[t] = f.kind + ": " + f.message;
+      } catch (lib::ObserveError& oe) {
+        errors[t] = "observation: " + oe.what;
+      }
+    });
+  }
+  while (ready.load() < (int)nthreads) std::this_thread::yield();
+  go.store(true);
+  for (auto& th : threads) th.join();
+  for (size_t t = 0; t < nthreads; t++) {
+    if (!errors[t].empty()) ctx.fail("not-as-if-sequential", "cold start, thread " + std::to_string(t) + ": " + errors[t]);
+    std::string expect = program(seeds[t], shared, known);
+    if (expect != got[t]) ctx.fail("not-as-if-sequential", "cold start, thread " + std::to_string(t) + ": transcript differs from the sequential run");
+  }
+}
 
 static cs::PropDef PROP = {"C20", run_case, nullptr, witness};
 CS_MAIN(PROP)
